@@ -455,8 +455,116 @@ def gmres_cases(tier):
     return cases, dropped
 
 
+# ------------------------------------------------------------------ C13: badly scaled systems (wide integers)
+WB = 16384      # base of the wide integers of spec/LeastSquares.tla
+
+
+def wide_decode(flat):
+    """<<sign, d1, d2, ...>> printed by TLC (WFlat) -> Python int."""
+    return flat[0] * sum(d * WB**i for i, d in enumerate(flat[1:]))
+
+
+def _idet(X):
+    """Integer determinant by Laplace expansion (unbounded Python integers)."""
+    k = len(X)
+    if k == 0:
+        return 1
+    if k == 1:
+        return X[0][0]
+    return sum((-1) ** j * X[0][j] * _idet([row[:j] + row[j + 1:] for row in X[1:]]) for j in range(k) if X[0][j])
+
+
+def _igram(cols):
+    return [[sum(a * b for a, b in zip(u, v)) for v in cols] for u in cols]
+
+
+def wide_case_mirror(A, b, x0):
+    """The values of LeastSquares.tla!WGmresOpt for every m in 0..n+2 with unbounded integers: the same formulas
+    (plain power basis, Gram-determinant ratio, Cramer's rule), hence the same unreduced numerators and denominators.
+    A: list of integer rows, b, x0: integer lists.  Returns (kdim, rho2_0, {m: dict(n2, d2, xn, xd, j)})."""
+    n = len(A)
+
+    def mv(v):
+        return [sum(A[i][k] * v[k] for k in range(n)) for i in range(n)]
+    r0 = [b[i] - y for i, y in enumerate(mv(x0))]
+    pw = [r0]
+    for _ in range(n):
+        pw.append(mv(pw[-1]))
+    kd = 0
+    if any(r0):
+        kd = next(j for j in range(1, n + 1) if _idet(_igram(pw[:j])) != 0 and (j == n or _idet(_igram(pw[:j + 1])) == 0))
+    out = {}
+    for m in range(0, n + 3):
+        j = min(m, kd)
+        if j == 0:
+            out[m] = {"n2": sum(t * t for t in r0), "d2": 1, "xn": list(x0), "xd": 1, "j": 0}
+            continue
+        K, AK = pw[:j], pw[1:j + 1]
+        G = _igram(AK)
+        D = _idet(G)
+        c = [sum(u * t for u, t in zip(col, r0)) for col in AK]
+        yn = [_idet([[c[a] if bb == i else G[a][bb] for bb in range(j)] for a in range(j)]) for i in range(j)]
+        xn = [D * x0[i] + sum(K[k][i] * yn[k] for k in range(j)) for i in range(n)]
+        out[m] = {"n2": _idet(_igram(AK + [r0])), "d2": D, "xn": xn, "xd": D, "j": j}
+    return kd, sum(t * t for t in r0), out
+
+
+WIDE_TEMPLATES = {
+    # name: (n, rows as a function of the scale s)   -- diagonal / triangular / companion-like, cond(A) ~ s
+    "diag2": lambda s: [[1, 0], [0, s]],
+    "tri2": lambda s: [[1, 1], [0, s]],
+    "ltri2": lambda s: [[s, 0], [1, 1]],
+    "gen2": lambda s: [[1, s], [1, 1]],
+    "comp2": lambda s: [[0, -s], [1, s + 1]],                      # companion matrix of (t - 1)(t - s)
+    "diag3": lambda s: [[1, 0, 0], [0, 3, 0], [0, 0, s]],
+    "tri3": lambda s: [[1, 1, 0], [0, 2, 1], [0, 0, s]],
+    "comp3": lambda s: [[0, 0, s], [1, 0, 1], [0, 1, 1]],
+    "diag4": lambda s: [[1, 0, 0, 0], [0, 2, 0, 0], [0, 0, 5, 0], [0, 0, 0, s]],
+    "bidiag4": lambda s: [[s, 1, 0, 0], [0, 2, 1, 0], [0, 0, 1, 1], [0, 0, 0, 3]],
+    "comp4": lambda s: [[0, 0, 0, s], [1, 0, 0, 1], [0, 1, 0, 0], [0, 0, 1, 1]],
+}
+WIDE_SCALES = {"1e2": 10**2, "1e3": 10**3, "1e4": 10**4, "1e5": 10**5, "1e6": 10**6, "1e7": 10**7,
+               "2^7": 2**7, "2^10": 2**10, "2^13": 2**13, "2^17": 2**17, "2^20": 2**20, "2^23": 2**23}
+
+
+def gmres_wide_cases(tier):
+    """Badly scaled, exactly representable systems (entries powers of ten / two up to 10^7): TLC evaluates them with wide
+    integers.  quick: every template with a rotating third of the scales; thorough: every template with every scale."""
+    cases = []
+    names = list(WIDE_TEMPLATES)
+    scales = list(WIDE_SCALES)
+    for ti, name in enumerate(names):
+        for si, sn in enumerate(scales):
+            if tier == "quick" and (si + ti) % 3:
+                continue
+            s = WIDE_SCALES[sn]
+            rows = WIDE_TEMPLATES[name](s)
+            n = len(rows)
+            rhs = {"ones": [1] * n, "gen": [1, 2, -1, 1][:n], "e1": [1] + [0] * (n - 1)}
+            if tier == "quick":
+                rhs = {k: rhs[k] for k in (("ones", "e1") if (si + ti) % 2 else ("gen", ))}
+            for rn, bv in rhs.items():
+                for xn, x0 in (("0", [0] * n), ("e1", [1] + [0] * (n - 1))):
+                    if xn == "e1" and (rn == "e1" or (tier == "quick" and rn != "gen")):
+                        continue
+                    kd, rho0, per_m = wide_case_mirror(rows, bv, x0)
+                    cases.append({"id": f"{name}@{sn}/{rn}/x0={xn}", "mat": f"{name}@{sn}", "template": name, "scale": sn,
+                                  "A": M(rows), "b": col(bv), "x0": col(x0), "kdim": kd, "n": n, "complex": False,
+                                  "normal": is_normal_int(rows), "wide": True, "mirror": per_m, "rho2_0": (rho0, 1),
+                                  "x0name": xn})
+    return cases
+
+
+def is_normal_int(rows):
+    n = len(rows)
+    aat = [[sum(rows[i][k] * rows[j][k] for k in range(n)) for j in range(n)] for i in range(n)]
+    ata = [[sum(rows[k][i] * rows[k][j] for k in range(n)) for j in range(n)] for i in range(n)]
+    return aat == ata
+
+
 def render_gmres_catalog(cases):
-    recs = [{"id": c["id"], "kdim": c["kdim"], "A": jmat(c["A"]), "b": jmat(c["b"]), "x0": jmat(c["x0"])} for c in cases]
+    recs = [{"id": c["id"], "kdim": c["kdim"], "wide": bool(c.get("wide", False)), "A": jmat(c["A"]), "b": jmat(c["b"]),
+             "x0": jmat(c["x0"])} for c in cases]
     return "---- MODULE GmresCatalog ----\nEXTENDS Integers, Sequences\nGCases == " + tla.to_tla(recs) + "\n====\n"
 
 
@@ -484,12 +592,21 @@ def run_gmres_model(tag, cases):
         for rec in res.json_lines():
             out[(rec["id"], rec["m"])] = rec
         want = sum(c["n"] + 3 for c in cases)
-        if len(out) != want or res.distinct != want:
-            raise tla.TLCError(f"MC_Gmres: expected {want} states, TLC found {res.distinct}, parsed {len(out)} JSON lines")
+        n_wide = sum(1 for c in cases if c.get("wide"))      # wide cases have one more (initial, unevaluated) state
+        if len(out) != want or res.distinct != want + n_wide:
+            raise tla.TLCError(f"MC_Gmres: expected {want + n_wide} states, TLC found {res.distinct}, parsed {len(out)} JSON lines")
         # machinery self-check: TLC's exact values equal the mirror's
         for c in cases:
             for m, mir in c["mirror"].items():
                 rec = out[(c["id"], m)]
+                if c.get("wide"):
+                    # wide integers: decode TLC's digit sequences; the unreduced values must equal the mirror's
+                    dec = {"n2": wide_decode(rec["n2"]), "d2": wide_decode(rec["d2"]), "xd": wide_decode(rec["xd"]),
+                           "xn": [wide_decode(t) for t in rec["xn"]], "j": rec["j"]}
+                    if dec != mir or rec["kdim"] != c["kdim"] or wide_decode(rec["r0"]) != c["rho2_0"][0] or not rec.get("wide"):
+                        raise tla.TLCError(f"MC_Gmres: TLC (wide integers) and the integer mirror disagree on {c['id']} m={m}")
+                    rec["dec"] = dec
+                    continue
                 ok = (same_mat(rec["x"], mir["x"]) and rec["rho2"]["n"][0] == mir["rho2"][0] and rec["rho2"]["d"] == mir["rho2"][1]
                       and rec["kdim"] == c["kdim"] and rec["gdef"] == mir["gdef"] and same_mat(rec["gx"], mir["gx"]))
                 if not ok:
@@ -501,26 +618,34 @@ def run_gmres_model(tag, cases):
         common.cleanup(wd)
 
 
-def gmres_negative_control(tag, cases):
-    """The model must reject a corrupted catalog: a wrong Krylov dimension (CatalogOK) and a singular matrix."""
-    rejected = 0
-    for kind in ("kdim", "singular"):
-        c = dict(cases[0])
-        c = {**c}
-        if kind == "kdim":
-            c["kdim"] = c["kdim"] + 1
-        else:
-            n = c["A"]["r"]
-            c["A"] = M([[1] * n for _ in range(n)]) if n > 1 else M([[0]])
+def gmres_negative_control(tag, cases, wcases=()):
+    """The model must reject a corrupted catalog: a wrong Krylov dimension (CatalogOK) and a singular matrix, for an
+    ordinary case and for a badly scaled (wide-integer) one.  The TLC runs are independent and run concurrently."""
+    from concurrent.futures import ThreadPoolExecutor
+    plans = []
+    for src in (cases, wcases):
+        if not src:
+            continue
+        for kind in ("kdim", "singular"):
+            c = dict(src[0])
+            if kind == "kdim":
+                c["kdim"] = c["kdim"] + 1
+            else:
+                n = c["A"]["r"]
+                top = max(abs(x[0]) for row in c["A"]["e"] for x in row)
+                c["A"] = M([[top if i == 0 else 1] * n for i in range(n)]) if n > 1 else M([[0]])
+            plans.append(c)
+
+    def one(c):
         wd = tla.make_build_dir(tag + "-neg")
         try:
             res = tla.run_tlc("MC_Gmres", _cfg(("CatalogOK", )), wd, workers=2,
                               gen_files={"GmresCatalog.tla": render_gmres_catalog([c])})
-            if res.violated == "CatalogOK":
-                rejected += 1
+            return 1 if res.violated == "CatalogOK" else 0
         finally:
             common.cleanup(wd)
-    return rejected
+    with ThreadPoolExecutor(max_workers=len(plans)) as ex:
+        return sum(ex.map(one, plans))
 
 
 # ------------------------------------------------------------------ C16 catalogs
